@@ -30,8 +30,35 @@ JSON_HAND = [
 ]
 
 
+def parametric_cases(rng, n):
+    """parametric grammars (docs/parametric.md): counters, permutations, guard-only rules referenced once / twice, forwarding guards"""
+    out = []
+    conds = ["ge(_, %d)", "le(_, %d)", "eq(_, %d)", "ne(_, %d)", "bit_set(%d)", "bit_clear(%d)", "bit_count_ge(_, %d)", "gt([0:4], %d)"]
+    for i in range(n):
+        k = rng.randint(0, 3)
+        c = rng.choice(conds) % k
+        form = rng.randint(0, 5)
+        if form == 0:
+            g = 'start: item::0\nitem::_: "a" item::incr(_) | tail::_\ntail::_: "!" %%if %s\n' % c
+        elif form == 1:
+            g = 'start: item::0\nitem::_: "a" item::incr(_) | tail::_ | "b" tail::_\ntail::_: "!" %%if %s\n' % c
+        elif form == 2:
+            g = 'start: item::0\nitem::_: "a" item::incr(_) | fwd::_\nfwd::_: tail::_ %%if %s\ntail::_: "!" | "?" "!"\n' % c
+        elif form == 3:
+            nb = rng.randint(2, 3)
+            alts = ['""                       %%if is_ones([0:%d])' % nb] + ['"%s" perm::set_bit(%d)     %%if bit_clear(%d)' % ("abc"[j], j, j) for j in range(nb)]
+            g = "start    :  perm::0x0\nperm::_  :  " + "\n         |  ".join(alts) + "\n"
+        elif form == 4:
+            g = 'start: a::%d\na::_: "x" b::_ | "y"\nb::_: c::decr(_) %%if %s\nc::_: "z" a::_ | "w"\n' % (rng.randint(0, 3), c)
+        else:
+            g = 'start: cnt::0 "."\ncnt::_: "a" cnt::incr([0:2]) | done::_\ndone::_: "" %%if %s\n' % c
+        out.append(dict(kind="lark", text=g, origin="parametric"))
+    return out
+
+
 def corpus(tr, sd):
     cases = []
+    cases += parametric_cases(random.Random(1700 + sd), 24 if tr == "quick" else 200)
     for t in HAND:
         cases.append(dict(kind="lark", text=t, origin="hand"))
     for s in JSON_HAND:
